@@ -4,6 +4,7 @@ import (
 	"bytes"
 	"context"
 	"fmt"
+	"go.mongodb.org/mongo-driver/mongo"
 	"strconv"
 	"strings"
 	"testing"
@@ -51,7 +52,44 @@ func bytesEq(a, b bson.D) bool { return bytes.Equal(marshal(a), marshal(b)) }
 
 // ---------------------------------------------------------------- single operator agreement
 
+// genC11PullDocs: $pull with a document condition (a query on the fields of
+// each element, a comparison inside it, or the empty condition) on an array
+// of embedded documents that carry more fields than the condition names.
+func genC11PullDocs(t *rapid.T) bson.D {
+	pick := func(label string, n int) int { return rapid.IntRange(0, 999).Draw(t, label) % n }
+	elems := bson.A{}
+	for i, n := 0, 1+pick("pdN", 4); i < n; i++ {
+		switch pick("pdKind", 6) {
+		case 0:
+			elems = append(elems, int32(pick("pdS", 3)))
+		case 1:
+			elems = append(elems, bson.D{{Key: "c", Value: "x"}})
+		default:
+			e := bson.D{{Key: "b", Value: int32(pick("pdB", 3))}}
+			if pick("pdExtra", 2) == 1 {
+				e = append(bson.D{{Key: "item", Value: "i"}}, e...)
+			}
+			elems = append(elems, e)
+		}
+	}
+	var cond bson.D
+	switch pick("pdCond", 4) {
+	case 0:
+		cond = bson.D{{Key: "b", Value: int32(pick("pdV", 3))}}
+	case 1:
+		cond = bson.D{{Key: "b", Value: bson.D{{Key: "$gte", Value: int32(pick("pdV", 3))}}}}
+	case 2:
+		cond = bson.D{{Key: "b", Value: int32(pick("pdV", 3))}, {Key: "item", Value: "i"}}
+	default:
+		cond = bson.D{}
+	}
+	return bson.D{{Key: "doc", Value: bson.D{{Key: "a", Value: elems}, {Key: "z", Value: int32(1)}}}, {Key: "op", Value: "$pull"}, {Key: "path", Value: "a"}, {Key: "arg", Value: cond}, {Key: "upsert", Value: false}}
+}
+
 func genC11Single(t *rapid.T) bson.D {
+	if rapid.IntRange(0, 999).Draw(t, "shape")%12 == 5 {
+		return genC11PullDocs(t)
+	}
 	cfg := gen.Core
 	doc := cfg.Doc(2, 3).Draw(t, "doc")
 	op := rapid.SampledFrom(gen.UpdateOps).Draw(t, "op")
@@ -301,6 +339,24 @@ func runC11Driver(c bson.D, x *Ctx) (err error) {
 		}
 		if res2.ModifiedCount != 0 {
 			return fmt.Errorf("second application reports ModifiedCount = %d", res2.ModifiedCount)
+		}
+		// ... and so do further applications through BulkWrite's update models
+		bres, berr := coll.BulkWrite(ctx, []mongo.WriteModel{
+			mongo.NewUpdateOneModel().SetFilter(bson.D{{Key: "_id", Value: int32(1)}}).SetUpdate(upd),
+			mongo.NewUpdateManyModel().SetFilter(bson.D{{Key: "_id", Value: bson.D{{Key: "$in", Value: bson.A{int32(1)}}}}}).SetUpdate(upd),
+		})
+		if berr == nil {
+			if bres.MatchedCount != 2 || bres.ModifiedCount != 0 {
+				return fmt.Errorf("two further applications of %s through BulkWrite report MatchedCount = %d, ModifiedCount = %d; they match twice and change nothing", show(upd), bres.MatchedCount, bres.ModifiedCount)
+			}
+			after3, e := findAll(coll)
+			if e != nil {
+				return e
+			}
+			if len(after3) != 2 || !bytesEq(after3[0], after[0]) {
+				return fmt.Errorf("further applications of %s through BulkWrite changed the document again", show(upd))
+			}
+			x.Class("idempotence-checked-through-bulk-write")
 		}
 		x.Class("idempotence-checked")
 	}
